@@ -10,7 +10,7 @@ import GdcVerif.Lemmas.JpegFrames
   DECODE by prefix search, RECEIVE / EXTEND, H.1.2.1 prediction, modulo-2^16 reconstruction)
   recovers the source image from the stream of the MODEL encoder (`JLL.encodeScan` behind the
   `JpegC.losslessHeader` / `sv1Header` container), exactly on the (predictor, geometry) classes
-  where the code's edge rule coincides with H.1.2.1 (`EdgeConform`).
+  (every predictor 1..7 and SV1 since fix 946feeb; the former `EdgeConform` restriction is gone).
 
   * R1  `ecsBits_eq`, `ecsBits_writeAll`     the two unstuffing / byte→bit definitions agree
   * R2  `codeTable_eq`, `codeTable_entry`    Annex C (Figures C.1–C.3) = the model's canonical codes
@@ -20,7 +20,7 @@ import GdcVerif.Lemmas.JpegFrames
   * R6  `decodeSamples_scan`                 the whole scan
   * R7  `specDecode_model_stream`            the stream theorem (scan given as `writeAll … scanSyms`)
         `specDecode_encodeScan`              the same, end to end from `encodeScan` (scan ≠ [] proved)
-  * R8  `edgeConform_iff`, `edge_witness_*`  exactness of `EdgeConform` (sv1 = false): it holds iff the
+  * R8  regression example for the former first-line / line-start deviation; formerly: it held iff the
                                              code's prediction equals Px at every position of the image
 -/
 namespace T81H
@@ -346,14 +346,6 @@ theorem recon_sample (sample p : Int) (hs : 0 ≤ sample ∧ sample < 65536) :
 
 /-! ## R6: the scan -/
 
-/-- (predictor, geometry) classes on which jpeg/lossless's edge rule coincides with H.1.2.1 at
-    every position -/
-def EdgeConform (sv1 : Bool) (pred w h : Nat) : Prop :=
-  sv1 = true ∨ pred = 1 ∨ pred = 4 ∨ ((pred = 2 ∨ pred = 6) ∧ w = 1) ∨ (pred = 5 ∧ h = 1) ∨ (w = 1 ∧ h = 1)
-
-instance (sv1 : Bool) (pred w h : Nat) : Decidable (EdgeConform sv1 pred w h) := by
-  unfold EdgeConform; infer_instance
-
 /-- the scan position of loop index `k` (position k: pixel k / nc in raster order, component k % nc) -/
 def posOf (w nc k : Nat) : Pos := (k / nc / w, k / nc % w, k % nc)
 
@@ -480,36 +472,9 @@ theorem px_congr (P Pt sel row col : Nat) (a b c a' b' c' : Int)
   · simp only [hr, hcl, if_false]
     rw [ha (by omega), hb (by omega), hc ⟨by omega, by omega⟩]
 
-/-- on a conforming class every position of the image satisfies the side condition of
-    `encPredicted_conforms` -/
-theorem edge_hok (pred w h : Nat) (hedge : EdgeConform false pred w h) (row col : Nat)
-    (hrow : row < h) (hcol : col < w) :
-    (row = 0 ∧ col = 0) ∨ (row > 0 ∧ col > 0) ∨ (row = 0 ∧ (pred = 1 ∨ pred = 4 ∨ pred = 5)) ∨
-      (col = 0 ∧ (pred = 1 ∨ pred = 2 ∨ pred = 4 ∨ pred = 6)) := by
-  rcases hedge with h0 | h1 | h4 | ⟨h26, hw⟩ | ⟨h5, hh⟩ | ⟨hw, hh⟩
-  · exact absurd h0 (by simp)
-  · by_cases hr : row = 0
-    · exact Or.inr (Or.inr (Or.inl ⟨hr, Or.inl h1⟩))
-    · by_cases hc : col = 0
-      · exact Or.inr (Or.inr (Or.inr ⟨hc, Or.inl h1⟩))
-      · exact Or.inr (Or.inl ⟨by omega, by omega⟩)
-  · by_cases hr : row = 0
-    · exact Or.inr (Or.inr (Or.inl ⟨hr, Or.inr (Or.inl h4)⟩))
-    · by_cases hc : col = 0
-      · exact Or.inr (Or.inr (Or.inr ⟨hc, Or.inr (Or.inr (Or.inl h4))⟩))
-      · exact Or.inr (Or.inl ⟨by omega, by omega⟩)
-  · have hc : col = 0 := by omega
-    refine Or.inr (Or.inr (Or.inr ⟨hc, ?_⟩))
-    rcases h26 with h | h
-    · exact Or.inr (Or.inl h)
-    · exact Or.inr (Or.inr (Or.inr h))
-  · have hr : row = 0 := by omega
-    exact Or.inr (Or.inr (Or.inl ⟨hr, Or.inr (Or.inr h5)⟩))
-  · exact Or.inl ⟨by omega, by omega⟩
-
 /-- on a conforming class the model's prediction at (row, col) is the standard's Px -/
 theorem predOf_px (sv1 : Bool) (P pred w h : Nat) (s : Planes) (hP : 1 ≤ P)
-    (hpred : 1 ≤ pred ∧ pred ≤ 7) (hsv1 : sv1 = true → pred = 1) (hedge : EdgeConform sv1 pred w h)
+    (hpred : 1 ≤ pred ∧ pred ≤ 7) (hsv1 : sv1 = true → pred = 1)
     (row col c : Nat) (hrow : row < h) (hcol : col < w) :
     predOf sv1 P pred w s (row, col, c) =
       px P 0 pred row col (nbOf s c w row col).left (nbOf s c w row col).up (nbOf s c w row col).upLeft := by
@@ -521,13 +486,12 @@ theorem predOf_px (sv1 : Bool) (P pred w h : Nat) (s : Planes) (hP : 1 ≤ P)
     exact sv1Predicted_conforms P row col _ hP
   | false =>
     simp only [predOf, Bool.false_eq_true, if_false]
-    have hedge : EdgeConform false pred w h := hedge
-    exact encPredicted_conforms P pred row col _ hP hpred (edge_hok pred w h hedge row col hrow hcol)
+    exact encPredicted_conforms P pred row col _ hP hpred
 
 /-- the prediction the specification's decoder forms at pixel `pix` from the already decoded
     prefix of the plane is the model's prediction from the source planes -/
 theorem px_plane (sv1 : Bool) (P pred w h : Nat) (s : Planes) (hP : 1 ≤ P)
-    (hpred : 1 ≤ pred ∧ pred ≤ 7) (hsv1 : sv1 = true → pred = 1) (hedge : EdgeConform sv1 pred w h)
+    (hpred : 1 ≤ pred ∧ pred ≤ 7) (hsv1 : sv1 = true → pred = 1)
     (pix c : Nat) (hpix : pix < w * h) :
     px P 0 pred (pix / w) (pix % w)
         (((List.range pix).map (cell s c)).getD (pix - 1) 0)
@@ -541,7 +505,7 @@ theorem px_plane (sv1 : Bool) (P pred w h : Nat) (s : Planes) (hP : 1 ≤ P)
   have hrow : pix / w < h := Nat.div_lt_of_lt_mul hpix
   have hcol : pix % w < w := Nat.mod_lt _ hw
   have hdm : w * (pix / w) + pix % w = pix := Nat.div_add_mod pix w
-  rw [predOf_px sv1 P pred w h s hP hpred hsv1 hedge _ _ c hrow hcol]
+  rw [predOf_px sv1 P pred w h s hP hpred hsv1 _ _ c hrow hcol]
   generalize hR : pix / w = row at *
   generalize hC : pix % w = col at *
   rw [Nat.mul_comm] at hdm
@@ -580,7 +544,7 @@ theorem decodeSamples_step (P Pt sel w nc : Nat) (tbls : List (List (Nat × Nat 
 /-- R6, inductive form: from loop index `i` on, over the remaining `n` positions -/
 theorem decodeSamples_from (sv1 : Bool) (P pred w h nc : Nat) (bits : List Nat) (values : Array Nat)
     (s : Planes) (hv : ValidTable bits values = true) (hP : 2 ≤ P ∧ P ≤ 16)
-    (hpred : 1 ≤ pred ∧ pred ≤ 7) (hsv1 : sv1 = true → pred = 1) (hedge : EdgeConform sv1 pred w h)
+    (hpred : 1 ≤ pred ∧ pred ≤ 7) (hsv1 : sv1 = true → pred = 1)
     (hnc : 0 < nc) (hrng : InRange P s)
     (hm : ∀ k, k < w * h * nc → (symOf sv1 P pred w s (posOf w nc k)).1 ∈ values.toList)
     (pad : List Bool) :
@@ -623,7 +587,7 @@ theorem decodeSamples_from (sv1 : Bool) (P pred w h nc : Nat) (bits : List Nat) 
     have ht : (List.replicate nc (codeTable bits values.toList))[i % nc]? = some (codeTable bits values.toList) := by
       simp [hr]
     rw [decodeSamples_step P 0 pred w nc _ n i _ _ _ _ _ _ ht (planesAt_get s nc i hnc) hd]
-    rw [px_plane sv1 P pred w h s (by omega) hpred hsv1 hedge (i / nc) (i % nc) hpix]
+    rw [px_plane sv1 P pred w h s (by omega) hpred hsv1 (i / nc) (i % nc) hpix]
     have hs := hrng (i % nc) (i / nc)
     have hf := pow_facts (P : Int) (by omega) (by omega)
     simp only at hf
@@ -637,7 +601,7 @@ theorem decodeSamples_from (sv1 : Bool) (P pred w h nc : Nat) (bits : List Nat) 
     the source planes, on every conforming (predictor, geometry) class -/
 theorem decodeSamples_scan (sv1 : Bool) (P pred w h nc : Nat) (bits : List Nat) (values : Array Nat)
     (s : Planes) (hv : ValidTable bits values = true) (hP : 2 ≤ P ∧ P ≤ 16)
-    (hpred : 1 ≤ pred ∧ pred ≤ 7) (hsv1 : sv1 = true → pred = 1) (hedge : EdgeConform sv1 pred w h)
+    (hpred : 1 ≤ pred ∧ pred ≤ 7) (hsv1 : sv1 = true → pred = 1)
     (hnc : 0 < nc) (hrng : InRange P s)
     (hcat : ∀ k ∈ emittedCats sv1 P pred w h nc s, k ∈ values.toList) :
     decodeSamples P 0 pred w nc (List.replicate nc (codeTable bits values.toList)) (w * h * nc) 0
@@ -658,7 +622,7 @@ theorem decodeSamples_scan (sv1 : Bool) (P pred w h nc : Nat) (bits : List Nat) 
   have hw := symWrites_width bits values hv _ hok
   obtain ⟨pad, _, _, hbits⟩ := ecsBits_writeAll _ hw
   rw [hbits, scanSyms_eq, hN, List.range_eq_range']
-  have := decodeSamples_from sv1 P pred w h nc bits values s hv hP hpred hsv1 hedge hnc hrng hm pad
+  have := decodeSamples_from sv1 P pred w h nc bits values s hv hP hpred hsv1 hnc hrng hm pad
     (w * h * nc) 0 (by omega)
   rw [planesAt_zero, planesAt_full s nc (w * h) hnc] at this
   exact this
@@ -698,12 +662,11 @@ theorem mapM_const_some {α β : Type} (f : α → Option β) (b : β) : ∀ (l 
     the complete stream of the model encoder — `losslessHeader` / `sv1Header`, the
     entropy-coded segment of `encodeScan` (`encodeScan_ok`), EOI — returns exactly the source
     image, for every predictor / geometry class on which the code's edge rule coincides with
-    H.1.2.1 (`EdgeConform`). -/
+    H.1.2.1. -/
 theorem specDecode_model_stream (sv1 : Bool) (P pred w h nc : Nat) (tb : JpegC.HuffTable)
     (s : Planes) (hdr scan : List Nat)
     (hw : 1 ≤ w ∧ w ≤ 65535) (hh : 1 ≤ h ∧ h ≤ 65535) (hnc : nc = 1 ∨ nc = 3)
     (hP : 2 ≤ P ∧ P ≤ 16) (hpred : 1 ≤ pred ∧ pred ≤ 7) (hsv1 : sv1 = true → pred = 1)
-    (hedge : EdgeConform sv1 pred w h)
     (htb : JpegC.TableOk tb)
     (hv : ValidTable (tb.bits.map Int.toNat) tb.values.toArray = true)
     (hcat : ∀ k ∈ emittedCats sv1 P pred w h nc s, k ∈ tb.values)
@@ -773,7 +736,7 @@ theorem specDecode_model_stream (sv1 : Bool) (P pred w h nc : Nat) (tb : JpegC.H
         simp [tableAt, hdht, hbits])
     simpa using this
   have hdec := decodeSamples_scan sv1 P pred w h nc (tb.bits.map Int.toNat) tb.values.toArray s hv hP
-    hpred hsv1 hedge hnc0 hrng hcat'
+    hpred hsv1 hnc0 hrng hcat'
   rw [← hscan] at hdec
   unfold specDecode
   simp only [hparse, hslice]
@@ -800,7 +763,6 @@ theorem specDecode_encodeScan (sv1 : Bool) (P pred w h nc : Nat) (tb : JpegC.Huf
     (s : Planes) (hdr : List Nat)
     (hw : 1 ≤ w ∧ w ≤ 65535) (hh : 1 ≤ h ∧ h ≤ 65535) (hnc : nc = 1 ∨ nc = 3)
     (hP : 2 ≤ P ∧ P ≤ 16) (hpred : 1 ≤ pred ∧ pred ≤ 7) (hsv1 : sv1 = true → pred = 1)
-    (hedge : EdgeConform sv1 pred w h)
     (htb : JpegC.TableOk tb)
     (hv : ValidTable (tb.bits.map Int.toNat) tb.values.toArray = true)
     (hcat : ∀ k ∈ emittedCats sv1 P pred w h nc s, k ∈ tb.values)
@@ -827,76 +789,17 @@ theorem specDecode_encodeScan (sv1 : Bool) (P pred w h nc : Nat) (tb : JpegC.Huf
     apply List.ne_nil_of_length_pos
     rw [scanSyms_eq, List.length_map, List.length_range]
     exact Nat.mul_pos (by omega) (Nat.mul_pos (by omega) (by omega))
-  exact specDecode_model_stream sv1 P pred w h nc tb s hdr scan hw hh hnc hP hpred hsv1 hedge htb hv hcat
+  exact specDecode_model_stream sv1 P pred w h nc tb s hdr scan hw hh hnc hP hpred hsv1 htb hv hcat
     hsz hrng hhdr hscan (by rw [hscan]; exact writeAll_symWrites_ne_nil _ _ hv _ hok hne)
 
-/-! ## R8: exactness of `EdgeConform` for jpeg/lossless (sv1 = false) -/
+/-! ## R8: the former first-line / line-start deviation (regression)
 
-/-- `EdgeConform false pred w h` holds exactly when the code's prediction equals H.1.2.1's Px at
-    every position of a w × h image, whatever the neighbours.  On every other class there is a
-    position (first line, col 1, or second line, col 0) where the two differ for neighbours 0. -/
-theorem edgeConform_iff (P pred w h : Nat) (hP : 2 ≤ P ∧ P ≤ 16) (hpred : 1 ≤ pred ∧ pred ≤ 7)
-    (hw : 1 ≤ w) (hh : 1 ≤ h) :
-    EdgeConform false pred w h ↔
-      ∀ row col, row < h → col < w → ∀ nb : Nb,
-        encPredicted P pred row col nb = px P 0 pred row col nb.left nb.up nb.upLeft := by
-  constructor
-  · intro hedge row col hrow hcol nb
-    exact encPredicted_conforms P pred row col nb (by omega) hpred (edge_hok pred w h hedge row col hrow hcol)
-  · intro hall
-    refine Decidable.byContradiction fun hn => ?_
-    simp only [EdgeConform, Bool.false_eq_true, false_or, not_or, not_and] at hn
-    obtain ⟨n1, n4, n26, n5, n11⟩ := hn
-    have hf := pow_facts (P : Int) (by omega) (by omega)
-    simp only at hf
-    obtain ⟨_, hH, _⟩ := hf
-    -- first line, second column
-    have hA : 2 ≤ w → encPredicted P pred (0 : Nat) (1 : Nat) ⟨0, 0, 0⟩ = px P 0 pred 0 1 0 0 0 :=
-      fun h2 => hall 0 1 (by omega) (by omega) ⟨0, 0, 0⟩
-    -- second line, first column
-    have hB : 2 ≤ h → encPredicted P pred (1 : Nat) (0 : Nat) ⟨0, 0, 0⟩ = px P 0 pred 1 0 0 0 0 :=
-      fun h2 => hall 1 0 (by omega) (by omega) ⟨0, 0, 0⟩
-    have hp : pred = 2 ∨ pred = 3 ∨ pred = 5 ∨ pred = 6 ∨ pred = 7 := by omega
-    rcases hp with rfl | rfl | rfl | rfl | rfl
-    · have := hA (by have := n26 (Or.inl rfl); omega)
-      simp [encPredicted, Gen.JpegLossless.Predictor, px] at this
-      omega
-    · rcases Nat.lt_or_ge 1 w with h2 | h2
-      · have := hA h2
-        simp [encPredicted, Gen.JpegLossless.Predictor, px] at this
-        omega
-      · have := hB (by have := n11 (by omega); omega)
-        simp [encPredicted, Gen.JpegLossless.Predictor, px] at this
-        omega
-    · have := hB (by have := n5 rfl; omega)
-      simp [encPredicted, Gen.JpegLossless.Predictor, px, shr1] at this
-      omega
-    · have := hA (by have := n26 (Or.inr rfl); omega)
-      simp [encPredicted, Gen.JpegLossless.Predictor, px, shr1] at this
-      omega
-    · rcases Nat.lt_or_ge 1 w with h2 | h2
-      · have := hA h2
-        simp [encPredicted, Gen.JpegLossless.Predictor, px, shr1] at this
-        omega
-      · have := hB (by have := n11 (by omega); omega)
-        simp [encPredicted, Gen.JpegLossless.Predictor, px, shr1] at this
-        omega
+  Before fix 946feeb jpeg/lossless applied the selected predictor on the first line and at line
+  starts with 2^(P-1) stand-ins; the witnesses of that deviation (P = 8; first line, col 1, Ra = 10;
+  second line, col 0, Rb = 10) now agree with H.1.2.1 for every predictor. -/
 
-/-! concrete witnesses (P = 8, neighbours 0 / 10): the code's prediction vs H.1.2.1's Px -/
-
-/-- predictor 2, w = 2, h = 1, position (0, 1): the code predicts 128, the standard Ra = 10 -/
-theorem edge_witness_2 : encPredicted 8 2 0 1 ⟨10, 0, 0⟩ = 128 ∧ px 8 0 2 0 1 10 0 0 = 10 := by decide
-/-- predictor 3, w = 2, h = 1, position (0, 1) -/
-theorem edge_witness_3 : encPredicted 8 3 0 1 ⟨10, 0, 0⟩ = 128 ∧ px 8 0 3 0 1 10 0 0 = 10 := by decide
-/-- predictor 3, w = 1, h = 2, position (1, 0) -/
-theorem edge_witness_3' : encPredicted 8 3 1 0 ⟨0, 10, 0⟩ = 128 ∧ px 8 0 3 1 0 0 10 0 = 10 := by decide
-/-- predictor 5, w = 1, h = 2, position (1, 0): 128 + (10 − 128) >> 1 = 69 -/
-theorem edge_witness_5 : encPredicted 8 5 1 0 ⟨0, 10, 0⟩ = 69 ∧ px 8 0 5 1 0 0 10 0 = 10 := by decide
-/-- predictor 6, w = 2, h = 1, position (0, 1) -/
-theorem edge_witness_6 : encPredicted 8 6 0 1 ⟨10, 0, 0⟩ = 69 ∧ px 8 0 6 0 1 10 0 0 = 10 := by decide
-/-- predictor 7, w = 2, h = 1, position (0, 1): (10 + 128) >> 1 = 69 -/
-theorem edge_witness_7 : encPredicted 8 7 0 1 ⟨10, 0, 0⟩ = 69 ∧ px 8 0 7 0 1 10 0 0 = 10 := by decide
-/-- predictor 7, w = 1, h = 2, position (1, 0) -/
-theorem edge_witness_7' : encPredicted 8 7 1 0 ⟨0, 10, 0⟩ = 69 ∧ px 8 0 7 1 0 0 10 0 = 10 := by decide
+example : ∀ sel ∈ [1, 2, 3, 4, 5, 6, 7],
+    encPredicted 8 (sel : Nat) 0 1 ⟨10, 0, 0⟩ = px 8 0 sel 0 1 10 0 0 ∧
+    encPredicted 8 (sel : Nat) 1 0 ⟨0, 10, 0⟩ = px 8 0 sel 1 0 0 10 0 := by decide
 
 end T81H
